@@ -612,11 +612,103 @@ def invalid_programs() -> list[dict]:
     return items
 
 
+# Complete, valid constructs.  A meaningless construct must also be rejected when it comes AFTER each of them - later in the
+# same routine, in a later routine, in a later macro, or in the next compile() of the same compiler object - because the
+# compiler keeps stacks (loops, switch cases, handlers, labels) in objects shared by all routines of a file: a construct that
+# forgets to pop its entry makes a later stray statement look legal.
+PRECEDERS: dict[str, tuple[str, str]] = {  # name -> (statements, extra top-level definitions)
+    "forever": ("forever {\n        p1();\n        if (debug) { break_loop; }\n        continue;\n    }", ""),
+    "while": ("while ($VAR_P < 3) {\n        p1();\n        $VAR_P += 1;\n    }", ""),
+    "while-not": ("while not ($VAR_P[1]) {\n        p1();\n    }", ""),
+    "while-not-empty": ("while not (debug) { }", ""),
+    "while-continue": ("while (edit) {\n        if (debug) { continue; }\n        break_loop;\n    }", ""),
+    "for": ("for ($i = 0; $i < 3; $i += 1;) {\n        p1();\n    }", ""),
+    "nested-loops": ("forever {\n        while not (variation) {\n            for ($j = 0; $j < 2; $j += 1;) { p1(); }\n        }\n        break_loop;\n    }", ""),
+    "switch": ("switch ($VAR_P) {\n        case 1:\n            p1();\n            break;\n        case 2:\n        default:\n            p2();\n    }", ""),
+    "switch-no-default": ("switch (random(3)) {\n        case 0:\n            p1();\n        case > 1:\n            p2();\n            break;\n    }", ""),
+    "switch-in-loop": ("forever {\n        switch (sector()) {\n            case 1:\n                break_loop;\n            default:\n                continue;\n        }\n    }", ""),
+    "if-elseif-else": ("if ($VAR_P == 1) {\n        p1();\n    } elseif not ($VAR_P[2] || debug) {\n        p2();\n    } else {\n        p3();\n    }", ""),
+    "with": ("with (actor 1) { p1(); }", ""),
+    "message-switch": ("message_SwitchTalk ($VAR_P) {\n        case 1:\n            \"one\"\n        default:\n            \"other\"\n    }", ""),
+    "macro-call": ("~pre(1);", "macro pre($x) {\n    forever {\n        switch ($x) {\n            case 1:\n                break_loop;\n        }\n        while not (debug) { p1($x); }\n    }\n}\n"),
+    "label-jump": ("@pl;\n    p1();\n    if (debug) { jump @pl; }\n    call @pl;", ""),
+    "return": ("if (debug) {\n        return;\n    }\n    p1();", ""),
+}
+PLACEMENTS: dict[str, str] = {
+    # {P} preceding construct, {PT} its top-level definitions, {F} the meaningless fragment, {T} its top-level definitions
+    "later-in-routine": "{PT}def 0 {{\n    {P}\n    {F}\n}}\n{T}",
+    "later-routine": "def 0 {{\n    {P}\n}}\ndef 1 {{\n    {F}\n}}\n{T}{PT}",
+    "later-targeted-routine": "{T}{PT}def 0 {{\n    a();\n}}\ndef 1 {{\n    {P}\n    end;\n}}\ndef 2 for actor 3 {{\n    b();\n    {F}\n}}\n",
+    "later-macro": "{PT}macro first() {{\n    {P}\n}}\nmacro wrap() {{\n    {F}\n}}\ndef 0 {{\n    ~first();\n    ~wrap();\n}}\n{T}",
+    "macro-defined-before-routine": "macro wrap() {{\n    {F}\n}}\n{PT}def 0 {{\n    {P}\n    ~wrap();\n}}\n{T}",
+    "routine-after-macro": "{PT}macro first() {{\n    {P}\n}}\ndef 0 {{\n    ~first();\n    {F}\n}}\n{T}",
+}
+# one or two representative fragments per class: (class, variant, fragment, top-level definitions)
+AFTER_FRAGMENTS: list[tuple[str, str, str, str]] = [
+    ("break-outside-case", "break", "break;", ""),
+    ("continue-outside-loop", "continue", "continue;", ""),
+    ("break_loop-outside-loop", "break_loop", "break_loop;", ""),
+    ("continue-outside-loop", "continue-in-if", "if (edit) { continue; }", ""),
+    ("break_loop-outside-loop", "break_loop-in-case", "switch ($VAR_B) { case 1: break_loop; }", ""),
+    ("break-outside-case", "break-in-loop", "while ($VAR_B < 2) { break; }", ""),
+    ("undefined-label", "jump", "jump @nolabel;", ""),
+    ("undefined-label", "call", "call @nolabel;", ""),
+    ("switch-ends-in-empty-case", "last-case", "switch ($VAR_B) { case 1: a(); case 2: }", ""),
+    ("two-defaults", "adjacent", "switch ($VAR_B) { default: a(); default: b(); }", ""),
+    ("statements-in-message-switch", "case-op", "message_SwitchTalk ($VAR_B) { case 1: a(); }", ""),
+    ("label-in-with", "at", "with (actor 1) { @inwith; }", ""),
+    ("not-on-ordinary-bit", "if", "if (not $VAR_A[1]) { a(); }", ""),
+    ("not-on-ordinary-bit", "while", "while (not $VAR_A[1]) { a(); }", ""),
+    ("unknown-macro", "noargs", "~nope();", ""),
+    ("recursive-macro", "direct", "~r();", "macro r() {\n    a();\n    ~r();\n}\n"),
+    ("too-few-macro-arguments", "1of2", "~two(1);", "macro two($x, $y) {\n    op($x, $y);\n}\n"),
+]
+
+
+def after_programs() -> list[dict]:
+    """Each meaningless construct placed AFTER each complete valid construct (same routine / later routine / later macro)."""
+    items = []
+    for cls, variant, frag, top in AFTER_FRAGMENTS:
+        for pname, (pre, pre_top) in PRECEDERS.items():
+            for plname, tmpl in PLACEMENTS.items():
+                items.append(
+                    {
+                        "cls": f"invalid:{cls}",
+                        "variant": f"{variant}@after:{pname}:{plname}",
+                        "text": tmpl.format(P=pre, PT=pre_top, F=frag, T=top),
+                        "must_reject": True,
+                    }
+                )
+    return items
+
+
+def after_compile_programs() -> list[dict]:
+    """State leaking across compile() calls: a valid program with the preceding construct is compiled first on the SAME
+    compiler object (item['pre_text']), then the meaningless program."""
+    items = []
+    for cls, variant, frag, top in AFTER_FRAGMENTS:
+        for pname, (pre, pre_top) in PRECEDERS.items():
+            items.append(
+                {
+                    "cls": f"invalid:{cls}",
+                    "variant": f"{variant}@after-compile:{pname}",
+                    "pre_text": PLACEMENTS["later-in-routine"].format(P=pre, PT=pre_top, F=BENIGN, T=""),
+                    "text": CONTEXTS["alone"].format(F=frag, T=top),
+                    "must_reject": True,
+                }
+            )
+    return items
+
+
 def context_selfcheck_programs() -> list[dict]:
-    return [
+    out = [
         {"cls": "selfcheck:context", "variant": c, "text": t.format(F=("hold;" if c == "with" else BENIGN), T=""), "must_reject": False}
         for c, t in CONTEXTS.items()
     ]
+    for pname, (pre, pre_top) in PRECEDERS.items():
+        for plname, tmpl in PLACEMENTS.items():
+            out.append({"cls": "selfcheck:context", "variant": f"after:{pname}:{plname}", "text": tmpl.format(P=pre, PT=pre_top, F=BENIGN, T=""), "must_reject": False})
+    return out
 
 
 # the hang found while building the corpus: kept as explicit witnesses (valid programs, clause R)
@@ -863,8 +955,9 @@ def materialise(item: dict, root: str) -> tuple[str, list[str]]:
     return os.path.join(root, "main.exps"), []
 
 
-def compile_outcome(text: str, path: str, lookup: list[str], repo_prefix: str) -> dict:
-    """Run the real compile(); classify what happened."""
+def compile_outcome(text: str, path: str, lookup: list[str], repo_prefix: str, pre_text: str | None = None) -> dict:
+    """Run the real compile(); classify what happened.  pre_text: compiled first on the same compiler object (its
+    outcome is ignored) - the contract is then about the second call."""
     import signal
 
     from explorerscript.error import ParseError, SsbCompilerError
@@ -877,6 +970,13 @@ def compile_outcome(text: str, path: str, lookup: list[str], repo_prefix: str) -
     try:
         signal.alarm(TIMEOUT_S)
         try:
+            if pre_text is not None:
+                try:
+                    comp.compile(pre_text, path)
+                except _Timeout:
+                    raise
+                except Exception:  # noqa: BLE001 - only the state it leaves behind matters
+                    pass
             comp.compile(text, path)
             signal.alarm(0)
             res = {"outcome": "ok"}
@@ -917,14 +1017,14 @@ def eval_item(args: tuple[dict, str]) -> dict:
         root = tempfile.mkdtemp(prefix="g-", dir=_W["scratch"])
         try:
             path, lookup = materialise(item, root)
-            res = compile_outcome(item["text"], path, lookup, _W["repo"])
+            res = compile_outcome(item["text"], path, lookup, _W["repo"], item.get("pre_text"))
             if "msg" in res:
                 res["msg"] = res["msg"].replace(root, "<root>")
             return res
         finally:
             shutil.rmtree(root, ignore_errors=True)
     path, lookup = materialise(item, _W["scratch"])
-    return compile_outcome(item["text"], path, lookup, _W["repo"])
+    return compile_outcome(item["text"], path, lookup, _W["repo"], item.get("pre_text"))
 
 
 def eval_chunk(args: tuple[list[dict], str]) -> list[dict]:
@@ -979,9 +1079,19 @@ def sig_class(item: dict) -> str:
 
 
 def replayable(item: dict, mode: str) -> dict:
-    keep = {k: item[k] for k in ("cls", "sig_cls", "variant", "text", "files", "main", "lookup", "path", "abs_lookup", "must_reject") if k in item}
+    keep = {k: item[k] for k in ("cls", "sig_cls", "variant", "text", "pre_text", "files", "main", "lookup", "path", "abs_lookup", "must_reject") if k in item}
     keep["mode"] = mode
     return keep
+
+
+def _sig_variant(item: dict) -> str:
+    """variant family for signatures: the fragment name, plus 'after:<preceding construct>' for the after-placements"""
+    var = item.get("variant", "")
+    v = var.split("@")[0].split(":")[0]
+    if "@after:" in var or "@after-compile:" in var:
+        parts = var.split("@", 1)[1].split(":")
+        v += ":" + parts[0] + ":" + parts[1]
+    return v
 
 
 def judge_api(item: dict, res: dict) -> list[Violation]:
@@ -1008,7 +1118,7 @@ def judge_api(item: dict, res: dict) -> list[Violation]:
             )
         )
     elif item.get("must_reject"):
-        v = item.get("variant", "").split("@")[0].split(":")[0]
+        v = _sig_variant(item)
         if res["outcome"] == "ok":
             out.append(
                 Violation(
@@ -1036,7 +1146,7 @@ def judge_cli(item: dict, both: dict) -> list[Violation]:
     api, cli = both["api"], both["cli"]
     out = []
     sc = sig_class(item)
-    v = item.get("variant", "").split("@")[0].split(":")[0]
+    v = _sig_variant(item)
     ok_api = api["outcome"] == "ok"
     ok_cli = cli["exit"] == 0
     # 'compile() succeeded => exit 0' is only demanded for valid programs (the CLI may still refuse to serialise what
@@ -1168,9 +1278,11 @@ def build_items(ctx: Ctx, pool) -> tuple[list[dict], dict]:
     for t in SSBSCRIPT_BAD:
         items.append({"cls": "ssbscript-syntax-error", "variant": "", "text": t, "must_reject": False})
     # (c)
-    inv = invalid_programs()
+    inv = invalid_programs() + after_programs() + after_compile_programs()
     items += inv
     stats["invalid"] = len(inv)
+    stats["invalid_after_placements"] = len(after_programs())
+    stats["invalid_after_compile"] = len(after_compile_programs())
     items += context_selfcheck_programs()
     # (d)
     for fam, t in DEGENERATE:
@@ -1201,6 +1313,8 @@ def cli_sample(items: list[dict], thorough: bool) -> list[dict]:
         else:
             key = it["cls"]
             lim = per
+        if it.get("pre_text") is not None:
+            continue  # two compile() calls on one object: no CLI equivalent
         if it.get("risky"):
             continue  # a hanging compile is reported by clause R; the CLI would only wait for the timeout
         if it["cls"] == "imports:cyclic" or it["cls"] == "imports:acyclic":
@@ -1324,7 +1438,7 @@ def _run(ctx: Ctx, res: PropResult, mp, root: str, t0: float) -> PropResult:
         StandIn(
             contract="J: " + CONTRACT_J,
             tier="T3",
-            bound="every listed class x up to 19 nesting contexts; all import graphs on 3 files with a reachable cycle; missing-file and routines-in-import layouts",
+            bound=f"every listed class x up to 19 nesting contexts; {len(AFTER_FRAGMENTS)} representative fragments x {len(PRECEDERS)} preceding complete constructs x {len(PLACEMENTS)} placements (later in the routine / later routine / later macro) and after a compile() of the preceding construct on the same compiler object; all import graphs on 3 files with a reachable cycle; missing-file and routines-in-import layouts",
             evaluations=n_j,
             distinct_nontrivial=len(distinct_j),
             exhaustive=False,
